@@ -91,6 +91,7 @@ func readCtr(id string) Ctr {
 // ---- stores ----
 
 type store struct {
+	hook  *dbHook // set for the fault-injecting SQL driver
 	kind  string
 	p     persistence.LogStatePersistence
 	db    *sql.DB
@@ -107,23 +108,32 @@ func newStore(kind, dir string) (*store, error) {
 	switch kind {
 	case "inmem":
 		return &store{kind: kind, p: inmemory.NewPersistence(), close: func() {}}, nil
-	case "sqlmem", "sqlfile":
+	case "sqlmem", "sqlfile", "sqlfault":
 		dsn := ":memory:"
 		path := ""
-		if kind == "sqlfile" {
+		drv := "sqlite3"
+		if kind == "sqlfile" || kind == "sqlfault" {
 			dbSeq.Lock()
 			dbSeq.n++
 			path = filepath.Join(dir, fmt.Sprintf("w%d-%d.db", os.Getpid(), dbSeq.n))
 			dbSeq.Unlock()
 			dsn = path
 		}
-		db, err := sql.Open("sqlite3", dsn)
+		var hk *dbHook
+		if kind == "sqlfault" {
+			drv = "sqlite3verif"
+			hk = newHook(dsn)
+		}
+		db, err := sql.Open(drv, dsn)
 		if err != nil {
 			return nil, err
 		}
 		db.SetMaxOpenConns(1) // as cmd/omniwitness does
-		return &store{kind: kind, p: psql.NewPersistence(db), db: db, path: path, close: func() {
+		return &store{kind: kind, p: psql.NewPersistence(db), db: db, path: path, hook: hk, close: func() {
 			db.Close()
+			if hk != nil {
+				dropHook(dsn)
+			}
 			if path != "" {
 				os.Remove(path)
 				os.Remove(path + "-journal")
